@@ -23,6 +23,22 @@ CHECKS = {
  "C16": dict(cat="exploration", tech="stateful PBT with the registration-channel close injected at a generated point of router histories (both routers), termination + flush-before-finish oracle, bounded-exhaustive small scope",
      text="close_channel() (what Server::shutdown calls) is injected at any point (idle, right after a registration, with buffered items and blocked sinks, one-sided populations); once sinks accept data the future must complete within a bounded number of polls and, for pub/sub, everything pulled from a publisher must be on every healthy adopted subscriber's wire.",
      note="World B does not include Server::shutdown's join_all (needs a signal); for req/rep only termination is claimed.", ref="§5 C16"),
+
+ "C05": dict(cat="exploration", tech="round-trip and chunking-invariance property-based testing of the wire codec over generated frames of all eight kinds, sizes computed to sit exactly at the limit, adversarial bare headers; libFuzzer target with the oracle inside (thorough)",
+     text="encode appends exactly 9+get_length() bytes with a truthful big-endian prefix and type byte; decode of those bytes yields an equal frame and consumes exactly them; any chunking of a concatenated stream (incl. a trailing partial frame) decodes to the same sequence; over-limit payloads are refused by the encoder without writing, over-limit length prefixes by the decoder with only the 9 header bytes present; unbatch(batch(v)) == v.",
+     note="Sizes far beyond the limit are represented by length fields only.", ref="§5 C05"),
+ "C06": dict(cat="exploration", tech="mutation-based property-based testing of every decoder and the client decode pipelines inside a child process with a counting allocator (abort/OOM attributable to the input); libFuzzer with ASan and malloc limit (thorough)",
+     text="Random bytes and valid encodings that are truncated, bit-flipped, spliced and given adversarial length/count fields are fed to frame decoding, unbatching, the three payload codecs, the five decompressors and the subscriber/requestor pipelines; the worker must survive, not panic and not request memory beyond a fixed cap plus 32x(input+decoded size).",
+     note="'Unrelated to input size' is operationalised by caps of 64 MiB (own decoders) / 512 MiB (pipelines with a decompression library).", ref="§5 C06"),
+ "C07": dict(cat="exploration", tech="differential property-based testing of TopicName parsing/creation against a hand-written reference grammar over generated boundary strings and arbitrary Unicode; wire-level registration PBT against the real server (isolation, INVALID_TOPIC_NAME)",
+     text="For all-ASCII strings the verdict must equal the reference exactly (both directions); for non-ASCII strings structural violations must be rejected and no call may panic; accepted names print back, components and is_valid()/create() agree.",
+     note="Non-ASCII word characters are a deliberate gray zone (regex \\w is Unicode-aware; the statement does not settle it).", ref="§5 C07"),
+ "C13": dict(cat="exploration", tech="property-based testing of BackoffStrategy schedules against an exact 128-bit reference law with saturation semantics",
+     text="Every generated configuration must yield exactly max_attempts items numbered from 1 whose delays equal the law (exact for constant/linear, 2^-30 relative for exponential) clamped by the maximum delay, saturating instead of panicking or wrapping on overflow.",
+     note="Two lenient bands (intermediate power overflow only; within 2^-30 of Duration::MAX) accept either the exact or the saturated value.", ref="§5 C13"),
+ "C14": dict(cat="exploration", tech="round-trip property-based testing over payload x algorithm x level, codec values, and the wire composition; invalid-input rejection",
+     text="decompress(compress(x)) == x for generated payload shapes and every supported algorithm/mode/level incl. presets, decode(encode(v)) == v for the three codecs, the full encode->batch->compress->decompress->unbatch->decode composition, and invalid UTF-8 / truncated bincode must be errors.",
+     note="Levels outside the libraries' documented ranges are out of domain.", ref="§5 C14"),
 }
 PENDING = {}
 ALL = ["C%02d" % i for i in range(1, 18)]
